@@ -20,7 +20,9 @@ use kira::effect::volume_control::VolumeControlBuilder;
 use kira::effect::{Effect, EffectBuilder};
 use kira::info::{Info, MockInfoBuilder};
 use kira::{Frame, Panning, Value};
+use kira::track::TrackBuilder;
 use std::collections::BTreeSet;
+use std::sync::{Arc, Mutex};
 use std::time::Duration;
 
 // ------------------------------------------------------------------ effect descriptions
@@ -186,26 +188,29 @@ impl Desc {
 }
 
 /// the libm calls of the compressor that depend on the signal: a mirror of compressor.rs
-fn comp_oracle(d: &Desc, sr: u32, input: &[Frame], tab: &mut Tab) {
+/// (segments = consecutive runs at possibly different sample rates; the envelope carries over)
+fn comp_oracle(d: &Desc, segments: &[(u32, &[Frame])], tab: &mut Tab) {
 	if let Comp { thr, ratio, att, rel, .. } = d {
 		let threshold = *thr as f32;
 		let ratio = *ratio as f32;
 		let mut env = [0.0f32; 2];
-		let dt = 1.0 / sr as f64;
-		for f in input.iter() {
-			let chans = [f.left, f.right];
-			for i in 0..2 {
-				let a = chans[i].abs();
-				let l = a.log10();
-				tab.insert((T_LOG10F, obs32(a), obs32(l)));
-				let input_db = 20.0 * l;
-				let over = (input_db - threshold).max(0.0);
-				let duration = if env[i] > over { *rel } else { *att };
-				let speed = (-1.0 / (duration.as_secs_f64() / dt)).exp();
-				env[i] = over + speed as f32 * (env[i] - over);
-				let gr = env[i] * ((1.0 / ratio) - 1.0);
-				let arg = gr / 20.0;
-				tab.insert((T_POWF10, obs32(arg), obs32(10.0f32.powf(arg))));
+		for (sr, input) in segments {
+			let dt = 1.0 / *sr as f64;
+			for f in input.iter() {
+				let chans = [f.left, f.right];
+				for i in 0..2 {
+					let a = chans[i].abs();
+					let l = a.log10();
+					tab.insert((T_LOG10F, obs32(a), obs32(l)));
+					let input_db = 20.0 * l;
+					let over = (input_db - threshold).max(0.0);
+					let duration = if env[i] > over { *rel } else { *att };
+					let speed = (-1.0 / (duration.as_secs_f64() / dt)).exp();
+					env[i] = over + speed as f32 * (env[i] - over);
+					let gr = env[i] * ((1.0 / ratio) - 1.0);
+					let arg = gr / 20.0;
+					tab.insert((T_POWF10, obs32(arg), obs32(10.0f32.powf(arg))));
+				}
 			}
 		}
 	}
@@ -643,7 +648,7 @@ fn emit_trace(s: &mut Session, cx: &Ctx, kind: &str, d: &Desc, sr: u32, input: &
 	};
 	let mut tab = Tab::new();
 	d.oracle(sr, &mut tab);
-	comp_oracle(d, sr, input, &mut tab);
+	comp_oracle(d, &[(sr, input)], &mut tab);
 	let tabs = format!("[{}]", tab.iter().map(|(t, a, b)| format!("({}, {}, {})", t, z(*a), z(*b))).collect::<Vec<_>>().join("; "));
 	let term = format!("CTrace (Case {} {} {} {} [] {})", sr, T, tabs, d.term(), frames_term(input));
 	let k = key_of(&term);
@@ -1383,6 +1388,615 @@ fn sec_compressor(s: &mut Session, cx: &Ctx, rng: &mut Rng, n_cfg: usize) {
 	s.notes.push(format!("compressor: largest |measured - closed form| gain change over all frames = {worst_db:.3e} dB (bound 0.02 dB + 0.2 %)"));
 }
 
+// ------------------------------------------------------------------ histories: device-rate changes, real tracks
+// (compressor_piecewise_R / compressor_release_through_silence_R, filter_response_after_rate_change_R,
+//  eq_response_after_rate_change_R: what an effect does next depends on the rate in force and on its state,
+//  not on how it got there nor on how the frames were cut into process calls)
+
+/// one stretch at one device rate: the sizes of the process calls (bare effect) / device callbacks (real manager)
+type Seg = (u32, Vec<usize>);
+fn seg_frames(segs: &[Seg]) -> usize {
+	segs.iter().map(|s| s.1.iter().sum::<usize>()).sum()
+}
+fn calls_of(n: usize, t: usize) -> Vec<usize> {
+	let mut v = vec![t; n / t];
+	if n % t != 0 {
+		v.push(n % t);
+	}
+	v
+}
+fn segs_text(segs: &[Seg]) -> String {
+	segs.iter()
+		.map(|(sr, c)| {
+			let n: usize = c.iter().sum();
+			let same = c.len() > 1 && c[..c.len() - 1].iter().all(|x| *x == c[0]);
+			if same {
+				format!("{} frames at {} Hz in calls of {} (+ a last one of {})", n, sr, c[0], c[c.len() - 1])
+			} else if c.len() <= 8 {
+				format!("{} frames at {} Hz in calls of {:?}", n, sr, c)
+			} else {
+				format!("{} frames at {} Hz in {} calls of {:?}...", n, sr, c.len(), &c[..8])
+			}
+		})
+		.collect::<Vec<_>>()
+		.join("; on_change_sample_rate; ")
+}
+
+/// the bare effect through a history: init(first rate, t), process calls of the given sizes with dt = 1/rate,
+/// on_change_sample_rate between the segments
+fn run_history(cx: &Ctx, d: &Desc, t: usize, segs: &[Seg], signal: &[Frame]) -> Outcome<Vec<Frame>> {
+	catch(|| {
+		let mut e = d.build();
+		e.init(segs[0].0, t);
+		let mut buf = signal[..seg_frames(segs)].to_vec();
+		let mut pos = 0;
+		for (i, (sr, calls)) in segs.iter().enumerate() {
+			if i > 0 {
+				e.on_change_sample_rate(*sr);
+			}
+			let dt = 1.0 / *sr as f64;
+			for &n in calls {
+				e.on_start_processing();
+				e.process(&mut buf[pos..pos + n], dt, &cx.info);
+				pos += n;
+			}
+		}
+		buf
+	})
+}
+
+/// probe effects for a real track: the injector overwrites the track's bus with the test signal (frame by frame, in
+/// processing order), the tap records what comes out of the effect under test and the slices the renderer made
+struct Inject {
+	data: Arc<Vec<Frame>>,
+	pos: usize,
+}
+impl Effect for Inject {
+	fn process(&mut self, input: &mut [Frame], _dt: f64, _info: &Info) {
+		for f in input.iter_mut() {
+			*f = self.data.get(self.pos).copied().unwrap_or(Frame::ZERO);
+			self.pos += 1;
+		}
+	}
+}
+struct Tap {
+	log: Arc<Mutex<Vec<Frame>>>,
+	calls: Arc<Mutex<Vec<(usize, u64)>>>,
+}
+impl Effect for Tap {
+	fn process(&mut self, input: &mut [Frame], dt: f64, _info: &Info) {
+		self.log.lock().unwrap().extend_from_slice(input);
+		self.calls.lock().unwrap().push((input.len(), dt.to_bits()));
+	}
+}
+struct TrackRun {
+	output: Vec<Frame>,
+	/// (frames, bits of dt) of every process call the effect under test received
+	calls: Vec<(usize, u64)>,
+}
+/// the effect on a sub-track of a real `AudioManager` (custom backend owning the `Renderer`): device callbacks of the
+/// given sizes, `Renderer::on_change_sample_rate` between the segments; internal buffer boundaries are the renderer's
+fn run_on_track(d: &Desc, ibs: usize, segs: &[Seg], signal: &[Frame]) -> Outcome<TrackRun> {
+	catch(|| {
+		let log = Arc::new(Mutex::new(vec![]));
+		let calls = Arc::new(Mutex::new(vec![]));
+		let mut m = crate::backend::simple_manager(segs[0].0, ibs);
+		let builder = TrackBuilder::new()
+			.with_built_effect(Box::new(Inject { data: Arc::new(signal.to_vec()), pos: 0 }))
+			.with_built_effect(d.build())
+			.with_built_effect(Box::new(Tap { log: log.clone(), calls: calls.clone() }));
+		let _track = m.add_sub_track(builder).unwrap();
+		for (i, (sr, cbs)) in segs.iter().enumerate() {
+			if i > 0 {
+				m.backend_mut().set_sample_rate(*sr);
+			}
+			for &n in cbs {
+				m.backend_mut().callback(n, 2);
+			}
+		}
+		let output = log.lock().unwrap().clone();
+		let calls = calls.lock().unwrap().clone();
+		TrackRun { output, calls }
+	})
+}
+/// runs the history on the bare effect (`track = None`) or on a real track (`Some(internal buffer size)`);
+/// a scene that did not run as planned is a failure of the harness, reported as such
+fn run_either(s: &mut Session, cx: &Ctx, d: &Desc, t: usize, on_track: bool, segs: &[Seg], signal: &[Frame], desc: &str) -> Option<Vec<Frame>> {
+	let n = seg_frames(segs);
+	if !on_track {
+		match run_history(cx, d, t, segs, signal) {
+			Outcome::Ok(v) => Some(v),
+			_ => {
+				s.fail(desc.to_string(), format!("process panicked: {}", last_panic()), None);
+				None
+			}
+		}
+	} else {
+		match run_on_track(d, t, segs, signal) {
+			Outcome::Ok(r) => {
+				let mut want_dt = vec![];
+				for (sr, c) in segs {
+					for &cb in c {
+						for k in calls_of(cb, t) {
+							want_dt.push((k, (1.0 / *sr as f64).to_bits()));
+						}
+					}
+				}
+				if r.output.len() != n || r.calls != want_dt {
+					s.fail(desc.to_string(), format!("track scene did not run as planned: {} frames tapped in {} calls, planned {} in {} (harness problem or the renderer slices differently)", r.output.len(), r.calls.len(), n, want_dt.len()), None);
+					return None;
+				}
+				Some(r.output)
+			}
+			_ => {
+				s.fail(desc.to_string(), format!("real track panicked: {}", last_panic()), None);
+				None
+			}
+		}
+	}
+}
+fn gen_callbacks(r: &mut Rng, n: usize, b: usize) -> Vec<usize> {
+	let mut v = vec![];
+	let mut left = n;
+	while left > 0 {
+		let c = (*r.pick(&[b, 4 * b, 4 * b + b / 2 + 1, 7, 2 * b])).min(left);
+		v.push(c);
+		left -= c;
+	}
+	v
+}
+
+/// closed form of the decibel-domain follower through a piecewise-constant overshoot history
+/// (compressor_piecewise_R): per segment o + s^j (e0 - o), s = release when the segment starts above its target
+fn follower_closed_form(s_att: f64, s_rel: f64, segs: &[(f64, usize)]) -> Vec<f64> {
+	let mut out = vec![];
+	let mut e0 = 0.0f64;
+	for &(o, n) in segs {
+		let sp = if o < e0 { s_rel } else { s_att };
+		for j in 1..=n {
+			out.push(o + sp.powf(j as f64) * (e0 - o));
+		}
+		if n > 0 {
+			e0 = *out.last().unwrap();
+		}
+	}
+	out
+}
+
+/// compressor through digital silence: loud passage, a gap of EXACT zeros (k whole buffers + a partial one, aligned
+/// with the buffer grid or not), then a tone below the threshold.  The follower keeps releasing through the gap
+/// (overshoot of silence = 0: log10(0) = -inf, (-inf - threshold).max(0) = 0), so the tone gets the gain of
+/// rel^(gap + j + 1) * e1; also attack after leading silence.  Bare effect and real track.
+fn sec_compressor_gaps(s: &mut Session, cx: &Ctx, rng: &mut Rng, n_cfg: usize) {
+	const BUFS: [usize; 3] = [1, 16, 128];
+	const KS: [usize; 4] = [0, 1, 2, 10];
+	let mut worst_db = 0.0f64;
+	for i in 0..n_cfg {
+		let b = BUFS[i % 3];
+		let k = KS[(i / 3) % 4];
+		let aligned = (i / 12) % 2 == 0;
+		let lead_silence = i % 5 == 4;
+		let sr = if b == 1 { *rng.pick(&[8000u32, 22050, 44100, 48000]) } else { gen_sr(rng) };
+		let dt = 1.0 / sr as f64;
+		let thr = -(10.0 + rng.unit_f64() * 30.0);
+		let ratio = *rng.pick(&[2.0, 4.0, 8.0, 20.0, 3.0]);
+		let att = Duration::from_micros(rng.range(200, 5_000) as u64);
+		// short releases too, so that a gap of a few frames is a visible part of the release
+		let rel = if i % 2 == 0 { Duration::from_micros(rng.range(300, 5_000) as u64) } else { Duration::from_micros(rng.range(5_000, 60_000) as u64) };
+		let mk = if i % 3 == 0 { 0.0 } else { (-6.0 + rng.unit_f64() * 12.0) as f32 };
+		let d = Comp { thr, ratio, att, rel, mk, mix: 1.0 };
+		let mkg = 10f64.powf(mk as f64 / 20.0);
+		let l1 = thr + 6.0 + rng.unit_f64() * (-thr - 6.0).max(1.0);
+		let l3 = thr - 1.0 - rng.unit_f64() * 12.0;
+		let (a1, a3) = (10f64.powf(l1 / 20.0) as f32, 10f64.powf(l3 / 20.0) as f32);
+		let mut n1 = ((att.as_secs_f64() * 8.0 / dt) as usize).clamp(64, 40_000);
+		// where the silence starts relative to the buffer grid
+		let off = if aligned || b == 1 { 0 } else { rng.range(1, b as i64 - 1) as usize };
+		n1 = n1 / b * b + off;
+		let partial = if b == 1 { 0 } else { rng.range(0, b as i64 - 1) as usize };
+		let nz = k * b + partial;
+		let n3 = ((rel.as_secs_f64() * 3.0 / dt) as usize).clamp(64, 20_000);
+		let mut signal = vec![];
+		let mut levels: Vec<(f64, usize)> = vec![];
+		let (la, lc) = (20.0 * (a1 as f64).log10(), 20.0 * (a3 as f64).log10());
+		let (o1, o3) = ((la - thr).max(0.0), (lc - thr).max(0.0));
+		if lead_silence {
+			signal.extend(std::iter::repeat(Frame::ZERO).take(nz));
+			levels.push((0.0, nz));
+		}
+		for j in 0..n1 {
+			let sg = if j % 2 == 0 { 1.0 } else { -1.0 };
+			signal.push(Frame::new(a1 * sg, a1));
+		}
+		levels.push((o1, n1));
+		if !lead_silence {
+			signal.extend(std::iter::repeat(Frame::ZERO).take(nz));
+			levels.push((0.0, nz));
+		}
+		for j in 0..n3 {
+			let sg = if j % 3 == 0 { -1.0 } else { 1.0 };
+			signal.push(Frame::new(a3 * sg, a3));
+		}
+		levels.push((o3, n3));
+		let n = signal.len();
+		let s_att = (-dt / att.as_secs_f64()).exp();
+		let s_rel = (-dt / rel.as_secs_f64()).exp();
+		let slope = 1.0 / ratio - 1.0;
+		let env = follower_closed_form(s_att, s_rel, &levels);
+		for on_track in [false, true] {
+			let segs: Vec<Seg> = vec![(sr, if on_track { gen_callbacks(rng, n, b) } else { calls_of(n, b) })];
+			let scene = format!(
+				"{:?} @ {} Hz, {}, buffers of {} frames: {}{} frames at {:.2} dB (above the threshold), {}{} frames at {:.2} dB (below the threshold)",
+				d,
+				sr,
+				if on_track { format!("on a sub-track of a real AudioManager (device callbacks {:?}...)", &segs[0].1[..segs[0].1.len().min(6)]) } else { "bare effect".to_string() },
+				b,
+				if lead_silence { format!("{nz} frames of exact zeros ({k} whole buffers + {partial}), then ") } else { String::new() },
+				n1,
+				la,
+				if lead_silence { String::new() } else { format!("then {nz} frames of exact zeros ({k} whole buffers + {partial}, starting {off} frames into a buffer), then ") },
+				n3,
+				lc
+			);
+			let Some(out) = run_either(s, cx, &d, b, on_track, &segs, &signal, &scene) else { continue };
+			s.eval_only(if on_track { "mon_compressor_gap_track" } else { "mon_compressor_gap_bare" });
+			for j in 0..n {
+				let x = signal[j];
+				if x.left == 0.0 {
+					if !(out[j].left == 0.0 && out[j].right == 0.0) {
+						s.fail(scene.clone(), format!("frame {j}: silence in, ({}, {}) out", out[j].left, out[j].right), None);
+						break;
+					}
+					continue;
+				}
+				let want_db = env[j] * slope;
+				let got_db = 20.0 * ((out[j].left as f64 / x.left as f64) / mkg).abs().log10();
+				let err = (got_db - want_db).abs();
+				worst_db = worst_db.max(err);
+				if !(err <= 0.02 + 2e-3 * want_db.abs()) {
+					let part = levels.iter().scan(0usize, |acc, l| { *acc += l.1; Some(*acc) }).position(|end| j < end).unwrap_or(0);
+					let below = x.left.abs() == a3;
+					s.fail(
+						scene.clone(),
+						format!(
+							"frame {j} (frame {} of part {}): gain change {got_db:.5} dB, the follower through the piecewise-constant history gives {want_db:.5} dB{} [follower after the loud passage {:.4} dB over, s_release = exp(-dt/{:?}) per frame INCLUDING the {nz} silent frames]",
+							j - levels[..part].iter().map(|l| l.1).sum::<usize>(),
+							part + 1,
+							if below { " — a signal below the threshold after the release time must come out unchanged" } else { "" },
+							o1 * (1.0 - s_att.powf(n1 as f64)),
+							rel
+						),
+						None,
+					);
+					break;
+				}
+			}
+		}
+		// the same scene, tiny, bit for bit against the C13 model the theorems are about (buffers of 2 frames)
+		if i < 12 {
+			let mut small = vec![];
+			for j in 0..3 {
+				small.push(Frame::new(if j % 2 == 0 { a1 } else { -a1 }, a1));
+			}
+			for _ in 0..(1 + (i % 2) + 2 * (i % 3)) {
+				small.push(Frame::ZERO);
+			}
+			small.push(Frame::new(a3, -a3));
+			small.push(Frame::new(-a3, a3));
+			emit_trace_t(s, cx, "trace_compressor_gap", &d, sr, 2, &small);
+		}
+	}
+	s.notes.push(format!("compressor through silence: largest |measured - closed form| gain change = {worst_db:.3e} dB (bound 0.02 dB + 0.2 %)"));
+}
+
+/// like `emit_trace` with an internal buffer of `t` frames (the implementation is driven in slices of t; the model's
+/// frame-by-frame recurrence does not depend on the slicing: effects_partition_independent_any)
+fn emit_trace_t(s: &mut Session, cx: &Ctx, kind: &str, d: &Desc, sr: u32, t: usize, input: &[Frame]) {
+	let out = run_history(cx, d, t, &[(sr, calls_of(input.len(), t))], input);
+	let obs = match &out {
+		Outcome::Ok(v) => {
+			let mut o = vec![0];
+			for f in v {
+				o.push(obs32(f.left));
+				o.push(obs32(f.right));
+			}
+			o
+		}
+		Outcome::Panic(c) => vec![1, *c],
+		Outcome::Hang => vec![2],
+	};
+	let mut tab = Tab::new();
+	d.oracle(sr, &mut tab);
+	comp_oracle(d, &[(sr, input)], &mut tab);
+	let tabs = format!("[{}]", tab.iter().map(|(t, a, b)| format!("({}, {}, {})", t, z(*a), z(*b))).collect::<Vec<_>>().join("; "));
+	let sl = format!("[{}]", calls_of(input.len(), t).iter().map(|x| x.to_string()).collect::<Vec<_>>().join("; "));
+	let term = format!("CTrace (Case {} {} {} {} {} {})", sr, t, tabs, d.term(), sl, frames_term(input));
+	let k = key_of(&term);
+	s.case(kind, term, &obs, k);
+}
+/// init at `sr1`, process `in1`, `on_change_sample_rate(sr2)`, process `in2`: bit for bit against the model run with
+/// the coefficients of `sr1`, then (state carried over / lines rebuilt as the code does) with those of `sr2`
+fn emit_trace_sr(s: &mut Session, cx: &Ctx, kind: &str, d: &Desc, sr1: u32, sr2: u32, t: usize, in1: &[Frame], in2: &[Frame]) {
+	let segs: Vec<Seg> = vec![(sr1, calls_of(in1.len(), t)), (sr2, calls_of(in2.len(), t))];
+	let mut signal = in1.to_vec();
+	signal.extend_from_slice(in2);
+	let out = run_history(cx, d, t, &segs, &signal);
+	let obs = match &out {
+		Outcome::Ok(v) => {
+			let mut o = vec![0];
+			for f in v {
+				o.push(obs32(f.left));
+				o.push(obs32(f.right));
+			}
+			o
+		}
+		Outcome::Panic(c) => vec![1, *c],
+		Outcome::Hang => vec![2],
+	};
+	let mut tab = Tab::new();
+	d.oracle(sr1, &mut tab);
+	d.oracle(sr2, &mut tab);
+	comp_oracle(d, &[(sr1, in1), (sr2, in2)], &mut tab);
+	let tabs = format!("[{}]", tab.iter().map(|(t, a, b)| format!("({}, {}, {})", t, z(*a), z(*b))).collect::<Vec<_>>().join("; "));
+	let sl = |v: &[usize]| format!("[{}]", v.iter().map(|x| x.to_string()).collect::<Vec<_>>().join("; "));
+	let term = format!("CTrace (CaseSR {} {} {} {} {} {} {} {} {})", sr1, sr2, t, tabs, d.term(), sl(&segs[0].1), frames_term(in1), sl(&segs[1].1), frames_term(in2));
+	let k = key_of(&term);
+	s.case(kind, term, &obs, k);
+}
+
+fn sine(f: f64, sr: u32, n: usize, amp: f64) -> Vec<Frame> {
+	let th = 2.0 * std::f64::consts::PI * f / sr as f64;
+	(0..n).map(|i| Frame::new((amp * (th * i as f64).cos()) as f32, (amp * (th * i as f64).sin()) as f32)).collect()
+}
+/// steady-state response from the last `win` frames: mean of (out_l + i out_r) / (in_l + i in_r)
+fn tail_response(signal: &[Frame], out: &[Frame], win: usize) -> Cx {
+	let n = out.len();
+	let mut acc = Cx::new(0.0, 0.0);
+	for i in n - win..n {
+		let y = Cx::new(out[i].left as f64, out[i].right as f64);
+		let x = Cx::new(signal[i].left as f64, signal[i].right as f64);
+		acc = acc.add(y.div(x));
+	}
+	acc.scale(1.0 / win as f64)
+}
+fn two_rates(r: &mut Rng, i: usize) -> (u32, u32) {
+	let a = if i % 4 == 3 { r.range(8000, 192000) as u32 } else { RATES[i % RATES.len()] };
+	loop {
+		let b = if i % 7 == 6 { r.range(8000, 192000) as u32 } else { *r.pick(&RATES) };
+		let ratio = b as f64 / a as f64;
+		if ratio > 1.05 || ratio < 0.95 {
+			return (a, b);
+		}
+	}
+}
+
+/// every kind of frequency-response measurement repeated ACROSS a device-rate change on a live effect: the corner /
+/// centre must sit at the requested frequency in hertz at the rate in force afterwards
+/// (filter_response_after_rate_change_R, eq_response_after_rate_change_R)
+fn sec_rate_change_response(s: &mut Session, cx: &Ctx, rng: &mut Rng, n_filter: usize, n_eq: usize) {
+	let mut st = RespStats { worst_rel: 0.0, worst_at: String::new(), count: 0 };
+	let win = 4096usize;
+	for i in 0..n_filter + n_eq {
+		let is_eq = i >= n_filter;
+		let (ra, rb) = two_rates(rng, i);
+		let ny = ra.min(rb) as f64 / 2.0;
+		let fc = 200.0 * (ny * 0.8 / 200.0).powf(rng.unit_f64());
+		// every third configuration on a real track
+		let on_track = i % 3 == 2;
+		let t = if on_track { *rng.pick(&[32usize, 128]) } else { T };
+		let (d, k_eff, fc_eff): (Desc, f64, f64);
+		let mode = (i % 4) as u8;
+		let kind = (i % 3) as u8;
+		let res = rng.unit_f64() * 0.9;
+		let gain = (-18.0 + rng.unit_f64() * 36.0) as f32;
+		let q = 0.4 + rng.unit_f64() * 4.0;
+		let a = 10f64.powf(gain as f64 / 40.0);
+		if is_eq {
+			d = Eq { kind, freq: fc, gain, q };
+			k_eff = if kind == 0 { 1.0 / (q * a) } else { 1.0 / q };
+			fc_eff = match kind {
+				0 => fc,
+				1 => fc / a.sqrt().max(1.0),
+				_ => fc * a.sqrt().min(1.0),
+			};
+		} else {
+			d = Filter { mode, cutoff: fc, res, mix: 1.0 };
+			k_eff = 2.0 - 1.9 * res;
+			fc_eff = fc;
+		}
+		let spec_at = |rate: f64, design_rate: f64, f: f64| -> Cx {
+			// response at device rate `rate` of the design whose coefficient g was computed for `design_rate`
+			let pi = std::f64::consts::PI;
+			let om = (pi * f / rate).tan() / (pi * fc / design_rate).tan();
+			if is_eq {
+				proto_eq(kind, a.sqrt(), q, om)
+			} else {
+				proto_filter(mode, k_eff, om)
+			}
+		};
+		let probes = [fc, (20.0 * (rb as f64 / 2.0 * 0.98 / 20.0).powf(rng.unit_f64())).max(20.0)];
+		for (pi_, f) in probes.iter().enumerate() {
+			let n_a = 64 + rng.range(0, 3000) as usize;
+			let warm = ir_len(rb, fc_eff.max(5.0), k_eff.min(2.0)).min(400_000);
+			let n_b = warm + win;
+			let mut signal = sine(*f, ra, n_a, 0.5);
+			signal.extend(sine(*f, rb, n_b, 0.5));
+			let segs: Vec<Seg> = if on_track { vec![(ra, gen_callbacks(rng, n_a, t)), (rb, gen_callbacks(rng, n_b, t))] } else { vec![(ra, calls_of(n_a, t)), (rb, calls_of(n_b, t))] };
+			let desc = format!(
+				"{:?}, {}: init({ra}), {n_a} frames of a {f:.3} Hz sine at {ra} Hz, on_change_sample_rate({rb}), then {n_b} frames of the sine at {rb} Hz (dt = 1/{rb}); response measured on the last {win} frames",
+				d,
+				if on_track { format!("on a sub-track of a real AudioManager (internal buffer {t}, Renderer::on_change_sample_rate)") } else { format!("bare effect (process calls of {t} frames)") }
+			);
+			let Some(out) = run_either(s, cx, &d, t, on_track, &segs, &signal, &desc) else { continue };
+			s.eval_only(match (is_eq, on_track) {
+				(false, false) => "mon_filter_response_after_rate_change",
+				(false, true) => "mon_filter_response_after_rate_change_track",
+				(true, false) => "mon_eq_response_after_rate_change",
+				(true, true) => "mon_eq_response_after_rate_change_track",
+			});
+			let h = tail_response(&signal, &out, win);
+			let spec = spec_at(rb as f64, rb as f64, *f);
+			let (tr, ta) = resp_tol(fc, rb);
+			let err = h.sub(spec).abs();
+			st.count += 1;
+			let rel = err / (spec.abs() + ta / tr);
+			if rel > st.worst_rel {
+				st.worst_rel = rel;
+				st.worst_at = format!("{desc} at {f:.3} Hz");
+			}
+			if !(err <= tr * spec.abs() + ta) {
+				let stale = spec_at(rb as f64, ra as f64, *f);
+				let hint = if h.sub(stale).abs() <= tr * stale.abs() + ta {
+					format!("; it IS the response of coefficients computed for {ra} Hz used at {rb} Hz (|H| = {:.6}): the corner sits at {:.3} Hz instead of the requested {fc:.3} Hz", stale.abs(), fc * rb as f64 / ra as f64)
+				} else {
+					String::new()
+				};
+				s.fail(
+					desc.clone(),
+					format!(
+						"{} after the device-rate change: measured response at {f:.4} Hz is {:.6}{:+.6}i (|H| = {:.6}), the cited design at {rb} Hz gives {:.6}{:+.6}i (|H| = {:.6}); |difference| = {:.3e} > {:.1e} |H| + {:.1e}{hint}",
+						if pi_ == 0 { "at the requested corner / centre frequency" } else { "probe frequency" },
+						h.re,
+						h.im,
+						h.abs(),
+						spec.re,
+						spec.im,
+						spec.abs(),
+						err,
+						tr,
+						ta
+					),
+					None,
+				);
+			}
+		}
+		// bit for bit across the change against the model run with the new dt (a few, short)
+		if i % 6 == 0 {
+			let in1 = noise(rng, 5, 0.9);
+			let in2 = noise(rng, 6, 0.9);
+			emit_trace_sr(s, cx, if is_eq { "trace_eq_rate_change" } else { "trace_filter_rate_change" }, &d, ra, rb, 4, &in1, &in2);
+		}
+	}
+	s.notes.push(format!("filter / EQ across a device-rate change: {} measured responses; worst |H_meas - H_spec| / (|H_spec| + 0.2) = {:.3e} at {}", st.count, st.worst_rel, st.worst_at));
+}
+
+/// delay and reverb across a device-rate change: the lines are rebuilt for the new rate (empty), so an impulse after
+/// the change comes back at multiples of floor(delay_time * new rate) / at the Freeverb tunings scaled to the new rate
+fn sec_rate_change_lines(s: &mut Session, cx: &Ctx, rng: &mut Rng, n_delay: usize, n_reverb: usize) {
+	for i in 0..n_delay {
+		let (ra, rb) = two_rates(rng, i);
+		let time = match i % 3 {
+			0 => Duration::from_millis(rng.range(1, 60) as u64),
+			1 => Duration::from_micros(rng.range(50, 50_000) as u64),
+			_ => Duration::from_nanos(rng.range(10_000, 40_000_000) as u64),
+		};
+		let fb = (-24.0 + rng.unit_f64() * 23.0) as f32;
+		let mix = if i % 3 == 0 { 1.0 } else { rng.unit_f64() as f32 };
+		let on_track = i % 3 == 2;
+		let t = if on_track { *rng.pick(&[32usize, 128]) } else { T };
+		let d = Delay { time, fb, mix, fx: vec![] };
+		let dd = exact_frames(time, rb);
+		let n_a = exact_frames(time, ra) + rng.range(1, 500) as usize;
+		let echoes = 4usize;
+		let n_b = dd * echoes + dd / 2 + 2;
+		let (a, b) = (1.0f32, -0.5f32);
+		let mut signal = noise(rng, n_a, 0.7);
+		let mut tail = vec![Frame::ZERO; n_b];
+		tail[0] = Frame::new(a, b);
+		signal.extend(tail);
+		let segs: Vec<Seg> = if on_track { vec![(ra, gen_callbacks(rng, n_a, t)), (rb, gen_callbacks(rng, n_b, t))] } else { vec![(ra, calls_of(n_a, t)), (rb, calls_of(n_b, t))] };
+		let desc = format!(
+			"{:?}, {}: init({ra}), {n_a} frames of noise at {ra} Hz, on_change_sample_rate({rb}), then an impulse ({a}, {b}) and {} frames of silence at {rb} Hz (delay_time = {} ns, floor(delay_time * {rb}) = {dd} frames)",
+			d,
+			if on_track { format!("on a sub-track of a real AudioManager (internal buffer {t})") } else { "bare effect".to_string() },
+			n_b - 1,
+			time.as_nanos()
+		);
+		let Some(out) = run_either(s, cx, &d, t, on_track, &segs, &signal, &desc) else { continue };
+		s.eval_only(if on_track { "mon_delay_echoes_after_rate_change_track" } else { "mon_delay_echoes_after_rate_change" });
+		let g = amp64(fb);
+		let (ws, ds) = mixw(mix);
+		for j in 0..n_b {
+			let (wl, wr) = if j > 0 && j % dd == 0 {
+				let k = (j / dd) as i32;
+				(g.powi(k) * a as f64, g.powi(k) * b as f64)
+			} else {
+				(0.0, 0.0)
+			};
+			let (xl, xr) = if j == 0 { (a as f64, b as f64) } else { (0.0, 0.0) };
+			let (el, er) = (wl * ws + xl * ds, wr * ws + xr * ds);
+			let (ol, or) = (out[n_a + j].left as f64, out[n_a + j].right as f64);
+			let ok = if el == 0.0 && er == 0.0 { ol == 0.0 && or == 0.0 } else { close(ol, el, 2e-5, 1e-38) && close(or, er, 2e-5, 1e-38) };
+			if !ok {
+				let first = out[n_a + 1..].iter().position(|f| f.left != 0.0 || f.right != 0.0).map(|p| p + 1);
+				s.fail(desc.clone(), format!("frame {j} after the impulse is ({ol}, {or}), the echo train at the new rate says ({el}, {er}) [echo k at frame k*{dd} with gain g^k, g = {g}; nothing from before the change: the line is rebuilt]; first non-zero output after the impulse at {:?}", first), None);
+				break;
+			}
+		}
+		if i % 5 == 0 {
+			let (r1, r2) = (*rng.pick(&[8000u32, 11025]), *rng.pick(&[16000u32, 22050]));
+			let dsmall = Delay { time: Duration::from_nanos(2 * 1_000_000_000 / r1 as u64 + 20_000), fb: -6.0, mix: 0.5, fx: vec![] };
+			let mut in2 = vec![Frame::ZERO; 10];
+			in2[0] = Frame::new(1.0, -0.5);
+			emit_trace_sr(s, cx, "trace_delay_rate_change", &dsmall, r1, r2, 4, &noise(rng, 5, 0.9), &in2);
+		}
+	}
+	let mut worst = 0.0f64;
+	for i in 0..n_reverb {
+		let (ra, rb) = two_rates(rng, i + 2);
+		let (fb, damp) = if i % 2 == 0 { (0.9, 0.1) } else { (rng.unit_f64() * 0.95, rng.unit_f64()) };
+		let on_track = i % 3 == 2;
+		let t = if on_track { 128 } else { T };
+		let d = Reverb { fb, damp, width: 1.0, mix: 1.0 };
+		let n_a = 2000 + rng.range(0, 3000) as usize;
+		let n_b = (rb as usize / 8).max(3000);
+		let mut signal = noise(rng, n_a, 0.5);
+		let mut tail = vec![Frame::ZERO; n_b];
+		tail[0] = Frame::new(1.0, 0.5);
+		signal.extend(tail.clone());
+		let segs: Vec<Seg> = if on_track { vec![(ra, gen_callbacks(rng, n_a, t)), (rb, gen_callbacks(rng, n_b, t))] } else { vec![(ra, calls_of(n_a, t)), (rb, calls_of(n_b, t))] };
+		let desc = format!(
+			"{:?}, {}: init({ra}), {n_a} frames of noise at {ra} Hz, on_change_sample_rate({rb}), then an impulse (1, 0.5) and silence at {rb} Hz",
+			d,
+			if on_track { format!("on a sub-track of a real AudioManager (internal buffer {t})") } else { "bare effect".to_string() }
+		);
+		let Some(out) = run_either(s, cx, &d, t, on_track, &segs, &signal, &desc) else { continue };
+		s.eval_only(if on_track { "mon_reverb_after_rate_change_track" } else { "mon_reverb_after_rate_change" });
+		let out_b = &out[n_a..];
+		let reference = ref_freeverb(rb, fb, damp, 1.0, 1.0, &tail);
+		let peak = reference.iter().map(|p| p.0.abs().max(p.1.abs())).fold(1e-9, f64::max);
+		for j in 0..n_b {
+			let (el, er) = ((out_b[j].left as f64 - reference[j].0).abs(), (out_b[j].right as f64 - reference[j].1).abs());
+			worst = worst.max(el.max(er) / peak);
+			if !(el <= 2e-4 * peak && er <= 2e-4 * peak) {
+				s.fail(desc.clone(), format!("frame {j} after the change: output ({}, {}) but the Freeverb network built for {rb} Hz (empty lines) gives ({:.9}, {:.9}) (peak {peak:.4})", out_b[j].left, out_b[j].right, reference[j].0, reference[j].1), None);
+				break;
+			}
+		}
+		let fl = out_b.iter().position(|f| f.left != 0.0);
+		let fr = out_b.iter().position(|f| f.right != 0.0);
+		let (wl, wr) = (fv_len(1116, rb), fv_len(1116 + 23, rb));
+		if fl != Some(wl) || fr != Some(wr) {
+			s.fail(desc.clone(), format!("first reflection {:?} / {:?} frames after the impulse, Freeverb's shortest combs (1116 / 1139 samples at 44100 Hz) are {} / {} frames at {rb} Hz (at the old rate {ra} Hz: {} / {})", fl, fr, wl, wr, fv_len(1116, ra), fv_len(1139, ra)), None);
+		}
+		if i < 2 {
+			let (r1, r2) = if i == 0 { (441u32, 500u32) } else { (620, 441) };
+			let mut in2 = vec![Frame::ZERO; 14];
+			in2[0] = Frame::new(1.0, 0.5);
+			emit_trace_sr(s, cx, "trace_reverb_rate_change", &Reverb { fb: 0.8, damp: 0.2, width: 0.7, mix: 1.0 }, r1, r2, 8, &noise(rng, 13, 0.8), &in2);
+		}
+	}
+	s.notes.push(format!("reverb after a device-rate change: largest deviation from the f64 Freeverb reference built for the new rate / peak = {worst:.3e} (bound 2e-4)"));
+	// compressor across a rate change: the follower carries over, the time constants follow dt (bit for bit)
+	for i in 0..4 {
+		let (r1, r2) = (*rng.pick(&[8000u32, 44100]), *rng.pick(&[16000u32, 96000]));
+		let d = Comp { thr: -20.0 - i as f64, ratio: 4.0, att: Duration::from_micros(300), rel: Duration::from_micros(900), mk: 0.0, mix: 1.0 };
+		let mut in2 = vec![Frame::ZERO; 3];
+		in2.extend(noise(rng, 2, 0.05));
+		emit_trace_sr(s, cx, "trace_compressor_rate_change", &d, r1, r2, 2, &noise(rng, 4, 1.0), &in2);
+	}
+}
+
 pub fn run(args: &Args) {
 	let mut rng = Rng::new(args.seed ^ 0xC14);
 	let mul = args.budget_mul as usize;
@@ -1407,5 +2021,8 @@ pub fn run(args: &Args) {
 	sec_low_cutoff_witness(&mut s, &cx);
 	sec_reverb(&mut s, &cx, &mut rng, 20 * big, 40 * big, 12 * big);
 	sec_compressor(&mut s, &cx, &mut rng, 150 * big);
+	sec_compressor_gaps(&mut s, &cx, &mut rng, 48 * big);
+	sec_rate_change_response(&mut s, &cx, &mut rng, 72 * big, 48 * big);
+	sec_rate_change_lines(&mut s, &cx, &mut rng, 45 * big, 9 * big);
 	s.finish();
 }
